@@ -21,7 +21,7 @@ ASSUMPTIONS = ["reference model vf/props/C09.py:Model (sorted list by (prio, "
                "insertion seq)) is the meaning of 'stable priority queue'",
                "priorities are ints/floats without NaN"]
 MIN_COUNTERS = {'ops_compared': 1000, 'invariant_evals': 1000,
-                'score_histories': 5, 'atexit_histories': 3, 'clock_histories': 40,
+                'score_histories': 5, 'score_failed_adds': 20, 'atexit_histories': 3, 'atexit_inrun_adds': 3, 'clock_histories': 40,
                 'clock_wakeups_compared': 100, 'nrt_clock_histories': 300,
                 'clock_histories_moved_after_self_reschedule': 20,
                 'score_identical_bundles': 20, 'ppar_histories': 1500}
@@ -61,7 +61,7 @@ def plan(tier, seed):
         shards.append({'name': f'ppar{p}', 'mode': 'nrt', 'kind': 'ppar',
                        'first_case': f, 'n': n, 'secs': secs, 'hard_timeout': secs + 120})
     # exit actions: one shutdown per process
-    for p in range(4 if tier == 'quick' else 16):
+    for p in range(8 if tier == 'quick' else 48):
         shards.append({'name': f'atexit{p}', 'mode': 'nrt', 'kind': 'atexit',
                        'first_case': p, 'n': 1, 'secs': 30, 'hard_timeout': 120})
     return shards
@@ -585,7 +585,11 @@ def run_atexit(spec, acc):
     """The queue through another real user: the library's exit-action queue.
     Functions are registered with random priorities (ties), some are removed or
     re-registered, then the library's shutdown runs: they must run once each in
-    (priority, registration order)."""
+    (priority, registration order).  In every other case some actions work on
+    the queue while the shutdown is draining it (an action registers a follow-up
+    action, postpones or removes a pending one - never below its own priority,
+    so that any correct queue user keeps the non-decreasing order): the
+    shutdown is a pop loop, its history is add/re-add/remove between pops."""
     from sc3.base.main import main
     i = spec['shard']['first_case']
     rng = case_rng(spec['seed'], 'C09', 'atexit', i)
@@ -593,32 +597,94 @@ def run_atexit(spec, acc):
     model = Model()
     funcs = []
     n = rng.randint(3, 25)
-    for k in range(n):
+    inrun = {}              # k -> list of ops performed by action k when it runs
+    prio_of = {}
+    PR = [0, 0, 1, 5, 250, 499, 10.5, 3]   # below SERVERS (500)
+
+    done = set()
+
+    def perform(k):
+        if k in done:           # an action works on the queue the first time it runs
+            return
+        done.add(k)
+        for op in inrun.get(k, ()):
+            if op[0] == 'add':
+                main._atexitq.add(op[1], funcs[op[2]])
+            else:
+                try:
+                    main._atexitq.remove(funcs[op[1]])
+                except KeyError:
+                    pass
+
+    for k in range(2 * n):      # n registered up front, n reserved for follow-ups
         def f(k=k):
             ran.append(k)
+            perform(k)
         funcs.append(f)
     ops = []
     for _ in range(rng.randint(n, 3 * n)):
         k = rng.randrange(n)
         if rng.random() < 0.75:
-            prio = rng.choice([0, 0, 1, 5, 250, 499, 10.5, 3])   # below SERVERS (500)
+            prio = rng.choice(PR)
             main._atexitq.add(prio, funcs[k])
             model.add(prio, funcs[k])
+            prio_of[k] = prio
             ops.append(('add', prio, k))
         else:
             main._atexitq.remove(funcs[k])
             model.remove(funcs[k])
+            prio_of.pop(k, None)
             ops.append(('remove', k))
-    exp = [funcs.index(t) for _, t in model.iterate()]
+    reentrant = i % 2 == 1
+    if reentrant:
+        fresh = list(range(n, 2 * n))
+        for k in sorted(prio_of):
+            if rng.random() < 0.45:
+                lst = []
+                for _ in range(rng.randint(1, 3)):
+                    later = [p for p in PR if p >= prio_of[k]]
+                    r = rng.random()
+                    if r < 0.4 and fresh:       # register a follow-up action
+                        lst.append(('add', rng.choice(later), fresh.pop()))
+                    elif r < 0.75:              # postpone a pending (or re-register a spent) action
+                        lst.append(('add', rng.choice(later), rng.randrange(n)))
+                    else:
+                        lst.append(('remove', rng.randrange(n)))
+                inrun[k] = lst
+    # expectation: pop loop over the model, in-run ops applied after each pop
+    exp = []
+    m2 = Model()
+    m2.items = list(model.items)
+    m2.seq = model.seq
+    mdone = set()
+    guard = 0
+    while not m2.empty() and guard < 10 * n + 50:
+        guard += 1
+        _, t = m2.pop()
+        k = funcs.index(t)
+        exp.append(k)
+        if k in mdone or k not in inrun:
+            continue
+        mdone.add(k)
+        ops.append(('inrun', k, inrun[k]))
+        for op in inrun[k]:
+            if op[0] == 'add':
+                m2.add(op[1], funcs[op[2]])
+                acc.count('atexit_inrun_adds')
+            else:
+                m2.remove(funcs[op[1]])
+                acc.count('atexit_inrun_removes')
     try:
         main._shutdown()
     except Exception as e:
         acc.violation(f'C09/atexit-shutdown-raised/{type(e).__name__}',
                       {'case': i, 'ops': ops, 'tb': short_tb(e)})
     if ran != exp:
-        acc.violation('C09/atexit-order', {'case': i, 'ops': ops, 'ran': ran,
-                                           'expected': exp})
+        acc.violation('C09/atexit-order' + ('/actions-work-on-the-queue' if reentrant else ''),
+                      {'case': i, 'ops': ops, 'ran': ran, 'expected': exp})
     acc.count('atexit_histories')
+    if reentrant:
+        acc.count('atexit_histories_reentrant')
     acc.count('atexit_actions_run', len(ran))
     acc.case(h64(ops), nontrivial=len(set(o[1] for o in ops if o[0] == 'add')) < n)
     if acc.want_sample():
@@ -647,7 +713,29 @@ def run_score(spec, acc, Q):
             # same message) are still separate entries, each kept, in send order
             npay = rng.choice([1, 2, 3, n + 5])
             seen = set()
+            faulty = i % 2 == 1
             for k, t in enumerate(times):
+                if faulty and rng.random() < 0.3:
+                    # an entry the encoder refuses (later than everything else):
+                    # the caller gets the exception, the score is as before
+                    tb = rng.choice([10.0, 31.0, 100.5])
+                    bad = rng.choice([
+                        [tb, ['/m', object()]],                 # argument that cannot be encoded
+                        [tb, ['/m', 1], [tb - 50.0, ['/x', 1]]],    # nested bundle before its parent
+                        [tb, ['/m', 2 ** 40]],                  # int out of range
+                        [tb, ['/m', 1], ['/n', {1: 2}]]])       # second element fails
+                    try:
+                        score.add(bad)
+                        acc.count('score_unencodable_entry_accepted')
+                        entries = None      # not this property's business: case dropped
+                        break
+                    except Exception:
+                        acc.count('score_failed_adds')
+                        if score.duration != max([e[0] for e in entries]):
+                            acc.violation('C09/score-duration/after-failed-add',
+                                          {'case': i, 'times': times[:k], 'failed': repr(bad),
+                                           'duration': score.duration})
+                            break
                 v = rng.randrange(npay)
                 msg = ['/m', v]
                 score.add([t, msg])
@@ -655,6 +743,8 @@ def run_score(spec, acc, Q):
                 if (t, v) in seen:
                     acc.count('score_identical_bundles')
                 seen.add((t, v))
+            if entries is None:
+                continue
             exp = sorted(entries, key=lambda e: (e[0], e[1]))
             try:
                 dur = score.duration
